@@ -137,6 +137,7 @@ fn gen_rbsp(r: &mut Rng, out: &mut dyn Write) {
             _ => ops.push(format!("r{}", r.pick8(&[0, 1, 1, 2, 3, 7, 64, 200]))),
         }
     }
+    ops.push("D".to_string()); if r.below(4) == 0 { ops.push("f".to_string()); ops.push("r1".to_string()); }
     writeln!(out, "rbsp {} {} {} {}", join_chunks(&chunks), complete as u8, skip, ops.join(" ")).unwrap();
 }
 
